@@ -1116,6 +1116,20 @@ def may_combine_floats(e):
         return False
     if n >= 2:
         return True
+
+    # a decimal literal as (part of) a divisor, a base or an exponent is transformed by the CAS itself
+    # (z / 7.5 = z * (1/7.5): the reciprocal is computed in float arithmetic)
+    def transformed(t):
+        if t[0] in ("num", "var"):
+            return False
+        if t[0] == "div" and has_decimal(t[2]):
+            return True
+        if t[0] == "pow" and (has_decimal(t[1]) or has_decimal(t[2])):
+            return True
+        return any(transformed(a) for a in t[1:])
+
+    if transformed(e):
+        return True
     # one literal, but expansion may add copies of it to each other: (z + z + z) * 0.1
     occ = {}
 
